@@ -10,6 +10,7 @@ import Driver.Cli
 import Driver.SmBuilder
 import Driver.Cache
 import Driver.Comp
+import Driver.Lex
 open Lean Drv
 
 /-- dispatch on the prefix of "op" -/
@@ -28,6 +29,7 @@ def dispatch (j : Json) : R Json := do
   | "smb" => SmbD.handle op j
   | "cache" => CacheD.handle op j
   | "comp" => CompD.handle op j
+  | "lex" => LexD.handle op j
   | _ => throw s!"unknown op {op}"
 
 partial def loop (h : IO.FS.Stream) (out : IO.FS.Stream) : IO Unit := do
